@@ -312,6 +312,36 @@ def run(ctx, report):
             report.case(("refused-upd", kind, refused), True)
             report.count("refused-update:" + ("raised" if refused else "accepted"))
         shutil.rmtree(path, ignore_errors=True) if os.path.isdir(path) else os.remove(path)
+    # ---- the dict given as custom_metadata is the caller's: a write must not add to it, and what it adds for ONE frame (PANDAS_ATTRS)
+    # must not reach the file of another frame written with the same dict
+    try:
+        import fastparquet
+        import pandas as _pd
+        wd = ctx.workdir("c16")
+        given = {"who": "me", "k": "v"}
+        f1 = _pd.DataFrame({"a": [1, 2]})
+        f1.attrs = {"origin": "first frame"}
+        p1, p2 = os.path.join(wd, "attrs1.parq"), os.path.join(wd, "attrs2.parq")
+        fastparquet.write(p1, f1, custom_metadata=given)
+        fastparquet.write(p2, _pd.DataFrame({"a": [3]}), custom_metadata=given)
+        probs = []
+        if given != {"who": "me", "k": "v"}:
+            probs.append(f"write() changed the caller's custom_metadata dict to {given}")
+        a2 = fastparquet.ParquetFile(p2).to_pandas().attrs
+        if a2:
+            probs.append(f"a frame without attrs written with the same custom_metadata dict reads back attrs {a2}")
+        kv2 = fastparquet.ParquetFile(p2).key_value_metadata
+        if kv2.get("who") != "me" or kv2.get("k") != "v":
+            probs.append(f"given keys not kept verbatim: {dict(kv2)}")
+        if fastparquet.ParquetFile(p1).to_pandas().attrs != {"origin": "first frame"}:
+            probs.append("the frame's own attrs did not come back")
+        if probs:
+            report.violation({"check": "custom-metadata-dict", "what": "; ".join(probs)[:300], "sig": "kv:caller-dict"})
+        report.case(("custom-metadata-dict",), True)
+        for p_ in (p1, p2):
+            os.path.exists(p_) and os.remove(p_)
+    except Exception as e:  # noqa
+        report.violation({"check": "custom-metadata-dict", "what": "raised " + canon_err(e) + " " + str(e)[:100], "sig": "kv:caller-dict:raised"})
     if reqs:
         reps = ctx.driver.ask([r[0] for r in reqs])
         for (req, exp, rec), rep in zip(reqs, reps):
